@@ -625,11 +625,17 @@ def run_reads_check(c, prop):
     return d
 
 
-def run_reads_stage(c, prop):
+def run_reads_stage(c, prop, as_prop=None):
     """Point-in-time half of C01 / C03 / C04, decided on the reads the shared reads pipeline already issues (same cache):
     Inv_C01_ConservationAt / Inv_C03_MovesAt / Inv_C04_EffectiveAt of spec/TraceReads.tla.  Adds coverage counters prefixed
     reads_, reports a failing predicate as a violation whose signature is the predicate name, and ends with one
     corrupted-field control for that predicate.  To be called by checks/C01.py, C03.py, C04.py after their own pipeline."""
+    # as_prop: the check `c` belongs to ANOTHER property (e.g. C02 judged on the predicates of C03: account volumes as of an
+    # instant are the fold too); the predicates of `prop` are evaluated, coverage / violations go to `c`
+    if as_prop is not None:
+        c.set("reads_predicates_of", prop)
+        c.assume("the point-in-time surface of %s is decided by the predicates of %s (%s) of spec/TraceReads.tla"
+                 % (as_prop, prop, ", ".join(MAIN_PREDS[prop])))
     d = build_pipeline(c.tier, c.seed)
     res = load_result(d)
     cases = {x["case"]: x for x in json.load(open(os.path.join(d, "cases.json")))}
